@@ -94,6 +94,12 @@ def strategy_(draw, thorough):
                 if k in ("pandas", "PANDAS_ATTRS"):
                     continue
                 upd[k] = _val(draw) if draw(st.integers(0, 6)) else None
+        if upd and draw(st.integers(0, 7)) == 0:
+            # one value that is neither text nor bytes: the whole update must be refused and nothing may change
+            k = draw(st.sampled_from(sorted(upd)))
+            upd[k] = {"bad": draw(st.sampled_from([7, 1.5, True, [1], {"a": 1}]))}
+            updates.append(upd)
+            continue
         for k, v in upd.items():
             if v is None:
                 model.pop(k, None)
@@ -123,7 +129,16 @@ def strategy(tier):
 def _py(v):
     if v is None:
         return None
+    if "bad" in v:
+        return v["bad"]
     return bytes.fromhex(v["hex"]) if "hex" in v else v["s"]
+
+
+def _dec(b):
+    try:
+        return b.decode("utf8")
+    except UnicodeDecodeError:
+        return b
 
 
 def _b(x):
@@ -185,10 +200,29 @@ def run_case(case):
                 case = dict(case, _pandas_removed=True)
                 labels.append("all_keys_removed")
             arg = {k: _py(v) for k, v in upd.items()}
+            refused = any(isinstance(v, dict) and "bad" in v for v in upd.values())
+            if refused:
+                with open(target, "rb") as f:
+                    before = f.read()
             try:
                 fastparquet.update_file_custom_metadata(target, arg)
             except Exception as e:
+                if refused and isinstance(e, (TypeError, ValueError)):
+                    labels.append("refused_update")
+                    with open(target, "rb") as f:
+                        after = f.read()
+                    if after != before:
+                        return viol("refused_update_changed_file|" + case["target"],
+                                    "step %d: update with a %s value raised %s and left the file changed (%d -> %d bytes)"
+                                    % (si, type(next(_py(v) for v in upd.values() if isinstance(v, dict) and "bad" in v)).__name__,
+                                       type(e).__name__, len(before), len(after)), labels=labels)
+                    r = _check_kv(path, target, model, pandas_val, p0, data0, orig, case, reader, IGNORED_KINDS)
+                    if r:
+                        return viol("%s|after_refused|%s" % (r[0], case["target"]), "step %d: %s" % (si, r[1]), labels=labels)
+                    continue
                 return viol("update_raised|" + exc_sig(e), "step %d: %s" % (si, exc_detail(e)), labels=labels)
+            if refused:
+                return viol("bad_value_accepted|" + case["target"], "step %d: a value that is neither text nor bytes was accepted" % si, labels=labels)
             for k, v in upd.items():
                 if v is None:
                     model.pop(_b(k), None)
@@ -249,6 +283,13 @@ def _check_kv(path, target, model, pandas_val, p0, data0, orig, case, reader, ig
         api[_b(k)] = _b(v) if v is not None else None
     if api != model:
         return ("kv_api", "key_value_metadata %r != model %r" % (_short(api), _short(model)))
+    # as returned to the user: a key and a value are each text when their bytes are valid UTF-8 and bytes otherwise,
+    # independently of one another (the repository's test_custom_metadata_key_value_decode)
+    want = {_dec(k): _dec(v) for k, v in model.items()}
+    shown = {k: v for k, v in kvm.items() if k != "pandas"}
+    if shown != want:
+        bad = sorted(repr(k) for k in set(shown) ^ set(want)) or sorted(repr(k) for k in want if shown[k] != want[k] or type(shown[k]) is not type(want[k]))
+        return ("kv_api_types", "key_value_metadata returns %r, expected %r (entries %s)" % (_short(shown), _short(want), bad[:3]))
     if case.get("_pandas_removed"):
         # without the library's own entry dtypes fall back to what the schema says (categoricals become plain columns)
         r = frames_eq.frames_equal(now, orig, check_dtype=False, check_categories=False, loose_numbers=True)
@@ -260,7 +301,8 @@ def _check_kv(path, target, model, pandas_val, p0, data0, orig, case, reader, ig
 
 
 def _short(d):
-    return {k[:12]: (v[:12] + b"..." if v is not None and len(v) > 12 else v) for k, v in list(d.items())[:6]}
+    return {k[:12]: ((v[:12] + (b"..." if isinstance(v, bytes) else "...")) if v is not None and len(v) > 12 else v)
+            for k, v in list(d.items())[:6]}
 
 
 def shrink_moves(case):
